@@ -168,6 +168,21 @@ def entity_table():
             loft.add_side_edge(i, shared)
         return loft
 
+    def loft_shared_across_faces():
+        # ONE Angle object on the lower and the upper edge 0-1 / 4-5, ONE Arc... no: one Origin object on a face edge
+        # and on a side edge (all describe circles about the same axis / centre)
+        a = 1.0
+        quad = lambda z: [[1, 0, z], [2, 0, z], [2 * math.cos(a), 2 * math.sin(a), z], [math.cos(a), math.sin(a), z]]  # noqa: E731
+        arc = cb.Angle(a, [0, 0, 1])
+        bottom, top = cb.Face(quad(0.0)), cb.Face(quad(1.0))
+        bottom.add_edge(1, arc)
+        top.add_edge(1, arc)
+        inner = cb.Angle(a, [0, 0, 2.0])
+        bottom.add_edge(3, cb.Angle(-a, [0, 0, 1]))
+        loft = cb.Loft(bottom, top)
+        top.add_edge(3, inner)
+        return loft
+
     def face_shared_origin():
         o = cb.Origin([0.5, 0.5, 0.0])
         return cb.Face([[0, 0, 0], [1, 0, 0], [1, 1, 0], [0, 1, 0]], [o, None, o, None])
@@ -187,6 +202,7 @@ def entity_table():
         "Wedge": ("additive", lambda: cb.Wedge(cb.Face([[0, 0.5, 0], [1, 0.5, 0], [1, 1.2, 0], [0, 1.0, 0]]), 0.2)),
         "OnCurveLoft": ("additive", oncurve_loft),
         "LoftSharedAngle": ("additive", loft_shared_angle),
+        "LoftSharedAcrossFaces": ("additive", loft_shared_across_faces),
         "FaceSharedOrigin": ("face", face_shared_origin),
         "Box": ("additive", lambda: cb.Box([0.1, 0.2, 0.3], [1.1, 0.9, 1.5])),
         "Grid": ("sketch", lambda: cb.Grid([0, 0, 0], [2, 1, 0], 2, 1)),
@@ -237,7 +253,7 @@ def entity_table():
     return ent
 
 
-CHEAP = ["Point", "Face", "FaceAngle", "LoftSharedAngle", "FaceSharedOrigin", "DiscreteCurve", "LinearInterpolatedCurve", "SplineInterpolatedCurve", "LineCurve", "CircleCurve", "LoftEdges", "Extrude", "Revolve", "Wedge", "OnCurveLoft", "Box", "Grid", "OneCoreDisk", "RevolvedShape", "ArcData", "OriginData", "AngleData", "SplineData", "PolyLineData", "OnCurveData"]
+CHEAP = ["Point", "Face", "FaceAngle", "LoftSharedAngle", "LoftSharedAcrossFaces", "FaceSharedOrigin", "DiscreteCurve", "LinearInterpolatedCurve", "SplineInterpolatedCurve", "LineCurve", "CircleCurve", "LoftEdges", "Extrude", "Revolve", "Wedge", "OnCurveLoft", "Box", "Grid", "OneCoreDisk", "RevolvedShape", "ArcData", "OriginData", "AngleData", "SplineData", "PolyLineData", "OnCurveData"]
 
 
 def cases(tier, seed):
@@ -628,6 +644,25 @@ def run_case(case):
                     violations.append({"clause": "translate-by-own-array:" + clause, "coords": {"entity": en}, "detail": detail})
             except Exception as err:
                 violations.append({"clause": "translate-by-own-array:raised", "coords": {"entity": en}, "detail": f"{type(err).__name__}: {err}"})
+            # the same in list form, and an own array as the origin of a step that follows a translation
+            e = make_e()
+            own = e.points[0].position if kind_e == "face" else e.bottom_face.points[0].position if kind_e == "additive" else e.array.points[0]
+            try:
+                e.transform([cb.Translation(own)])
+                for clause, detail in compare(g0, geometry(e, kind_e), np.eye(3), d0, 1.0):
+                    violations.append({"clause": "translate-by-own-array:" + clause, "coords": {"entity": en, "form": "list"}, "detail": detail})
+            except Exception as err:
+                violations.append({"clause": "translate-by-own-array:raised", "coords": {"entity": en, "form": "list"}, "detail": f"{type(err).__name__}: {err}"})
+            e = make_e()
+            own = e.points[0].position if kind_e == "face" else e.bottom_face.points[0].position if kind_e == "additive" else e.array.points[0]
+            o0 = np.array(own, dtype=float)
+            try:
+                e.transform([cb.Translation([0.7, -1.2, 0.4]), cb.Rotation([1.0, 2.0, 3.0], 0.8, own)])
+                La, ba, _ = affine_of({"kind": "rotate", "angle": 0.8, "axis": (1.0, 2.0, 3.0), "origin": tuple(o0)}, np.zeros(3))
+                for clause, detail in compare(g0, geometry(e, kind_e), La, La @ np.array([0.7, -1.2, 0.4]) + ba, 1.0):
+                    violations.append({"clause": "origin-is-own-array:" + clause, "coords": {"entity": en, "form": "list"}, "detail": detail})
+            except Exception as err:
+                violations.append({"clause": "origin-is-own-array:raised", "coords": {"entity": en, "form": "list"}, "detail": f"{type(err).__name__}: {err}"})
         return {"violations": violations, "outcome": "purity", "execs": 7 + 4 * len(TRANSFORMS), "nontrivial": True}
 
     kind, make = entity_table()[case["entity"]]
